@@ -24,6 +24,7 @@ from vlib import runner
 ID = "C15"
 LEVEL = "exploration"
 EXHAUSTIVE = False
+EXHAUSTIVE_STREAMS = {'exhaustive': 'all sub-operation interleavings of all unordered pairs of well-formed <=2-operation programs (complete)', 'coercion': 'every listed value form x key x mechanism (complete)', 'bounded/random/singleton': 'sampled'}
 RULE = ("a case is one (thread programs, environment setting, schedule) triple executed with real threads under a baton "
         "scheduler; after every step all live threads read all 4 keys. exhaustive stream: every unordered pair of well-formed "
         "programs of <=2 operations over a 9-symbol alphabet x every sub-operation interleaving; bounded stream: <=3-operation "
